@@ -16,7 +16,10 @@ __all__ = ['CSSProductions', 'MACROS', 'PRODUCTIONS']
 # a complete list of css3 macros
 MACROS = {
     'nonascii': r'[^\0-\177]',
-    'unicode': r'\\[0-9A-Fa-f]{1,6}(?:{nl}|{s})?',
+    # unambiguous (as many digits and the white space if there is one), or a
+    # failing match tries exponentially many ways to split a run of escapes
+    'unicode': r'\\(?:[0-9A-Fa-f]{6}|[0-9A-Fa-f]{1,5}(?![0-9A-Fa-f]))'
+    r'(?:\r\n|[ \t\r\n\f]|(?![ \t\r\n\f]))',
     # 'escape': r'{unicode}|\\[ -~\200-\777]',
     'escape': r'{unicode}|\\[^\n\r\f0-9a-f]',
     'nmstart': r'[_a-zA-Z]|{nonascii}|{escape}',
@@ -25,7 +28,7 @@ MACROS = {
     'string2': r"'([^\n\r\f\\']|\\{nl}|{escape})*'",
     'invalid1': r'\"([^\n\r\f\\"]|\\{nl}|{escape})*',
     'invalid2': r"\'([^\n\r\f\\']|\\{nl}|{escape})*",
-    'comment': r'\/\*[^*]*\*+([^/][^*]*\*+)*\/',
+    'comment': r'\/\*[^*]*\*+([^/*][^*]*\*+)*\/',
     'ident': r'[-]{0,2}{nmstart}{nmchar}*',
     'name': r'{nmchar}+',
     # TODO???
@@ -33,7 +36,8 @@ MACROS = {
     'string': r'{string1}|{string2}',
     # from CSS2.1
     'invalid': r'{invalid1}|{invalid2}',
-    'url': r'[\x09\x21\x23-\x26\x28\x2a-\x7E]|{nonascii}|{escape}',
+    # no backslash: it starts an {escape}
+    'url': r'[\x09\x21\x23-\x26\x28\x2a-\x5b\x5d-\x7E]|{nonascii}|{escape}',
     's': r'\t|\r|\n|\f|\x20',
     'w': r'{s}*',
     'nl': r'\n|\r\n|\r|\f',
